@@ -3,9 +3,10 @@
 # mutant the tests miss).  Scratch copies are removed at once.
 export GOFLAGS=-mod=mod GOPROXY=off GOSUMDB=off GOTOOLCHAIN=local
 for d in "$@"; do
+  d=$(readlink -f $d)
   S=$(mktemp -d ${TMPDIR:-/var/tmp}/verif-scratch.XXXXXX)
   rsync -a --exclude .git /repo/ $S/
-  (cd $S && git init -q . && git apply $(readlink -f $d)) || { echo "$(basename $d): PATCH DOES NOT APPLY"; rm -rf $S; continue; }
+  (cd $S && git init -q . && git apply $d) || { echo "$(basename $d): PATCH DOES NOT APPLY"; rm -rf $S; continue; }
   if ! (cd $S && go build ./... >/dev/null 2>&1); then echo "$(basename $d): DOES NOT COMPILE"; rm -rf $S; continue; fi
   if (cd $S && go test -vet=off -count=1 ./... > $S/.t.log 2>&1); then echo "$(basename $d): suite passes"; else echo "$(basename $d): SUITE FAILS"; grep -e "^--- FAIL" -e "^FAIL" $S/.t.log | head -5; fi
   rm -rf $S
